@@ -250,9 +250,10 @@ func (n *ambassador) handleUpdateDIDDocument(transaction dag.Transaction, propos
 
 	// Resolve version of DID Document referred to by transaction
 	var currentDIDDocument *did.Document
+	var currentMetadata *resolver.DocumentMetadata
 	var err error
 	for _, ref := range transaction.Previous() {
-		currentDIDDocument, _, err = n.didStore.Resolve(proposedDIDDocument.ID, &resolver.ResolveMetadata{AllowDeactivated: true, SourceTransaction: &ref})
+		currentDIDDocument, currentMetadata, err = n.didStore.Resolve(proposedDIDDocument.ID, &resolver.ResolveMetadata{AllowDeactivated: true, SourceTransaction: &ref})
 		if err != nil && !errors.Is(err, resolver.ErrNotFound) {
 			return fmt.Errorf("unable to update DID document: %w", err)
 		}
@@ -262,11 +263,17 @@ func (n *ambassador) handleUpdateDIDDocument(transaction dag.Transaction, propos
 	}
 	// fallback
 	if currentDIDDocument == nil {
-		currentDIDDocument, _, err = n.didStore.Resolve(proposedDIDDocument.ID, &resolver.ResolveMetadata{AllowDeactivated: true})
+		currentDIDDocument, currentMetadata, err = n.didStore.Resolve(proposedDIDDocument.ID, &resolver.ResolveMetadata{AllowDeactivated: true})
 		if err != nil {
 			return fmt.Errorf("unable to update DID document: %w", err)
 		}
 		log.Logger().Errorf("Failed to resolve DID Document by ref. Using latest version. (DID=%s)", proposedDIDDocument.ID)
+	}
+
+	// A deactivated DID document can't be updated. The metadata decides, not the contents of the document:
+	// a deactivated document that is the result of a merge may still list keys (once deactivated is always deactivated).
+	if currentMetadata != nil && currentMetadata.Deactivated {
+		return fmt.Errorf("unable to update DID document: %w", resolver.ErrDeactivated)
 	}
 
 	// Resolve controllers of previous version (could be the same document)
